@@ -29,6 +29,10 @@ func (tr *tracer) register(e *Engine) {
 		}
 		return args[2].Fun().Call()
 	}))
+	// forces its argument twice: a thunk is re-evaluated on every force
+	e.Register(val.LazyFun(types.Fun("twice", []*types.Type{types.Num}, types.Num), func(args ...*val.Val) *val.Val {
+		return val.Num(args[0].Fun().Call().Num().V + args[0].Fun().Call().Num().V)
+	}))
 	e.Register(val.Fun(types.Fun("f3", []*types.Type{types.Num, types.Num, types.Num}, types.Num), func(args ...*val.Val) *val.Val {
 		return val.Num(args[0].Num().V + args[1].Num().V + args[2].Num().V)
 	}))
@@ -88,6 +92,10 @@ var lazyProgs = []lazyProg{
 	{"[t(1, a), t(2, b)][t(3, 0)]", func(c, d bool) []int { return []int{1, 2, 3} }, yes},
 	{"fs[t(1, 0)](t(2, a), t(3, b), t(4, a))", func(c, d bool) []int { return []int{1, 2, 3, 4} }, yes},
 	{"t(1, t(2, a) + t(3, b))", func(c, d bool) []int { return []int{2, 3, 1} }, yes},
+	{"twice(t(1, a))", func(c, d bool) []int { return []int{1, 1} }, yes},
+	{"twice(if(t(1, c), t(2, a), t(3, b)))", func(c, d bool) []int { return cat([]int{1}, when(c, 2), when(!c, 3), []int{1}, when(c, 2), when(!c, 3)) }, yes},
+	{"lz(c, twice(t(1, a)), t(2, b))", func(c, d bool) []int { return cat(when(c, 1, 1), when(!c, 2)) }, yes},
+	{"[t(1, a), t(2, b)][t(3, 1)] + [t(4, \"k\"): t(5, a)][t(6, \"k\")]", func(c, d bool) []int { return []int{1, 2, 3, 4, 5, 6} }, yes},
 }
 
 // H06_order: the sequence of host-function invocations is the one the program
@@ -173,4 +181,73 @@ func H06_guard() {
 		sv.Assert("guarded-partial-operation-never-fails:"+BackendNames[b], c[b] == "ok")
 	}
 	sv.Reach("ran")
+}
+
+// H06_rerun: one compiled expression evaluated twice with different data
+// gives, each time, the sequence and value its own data dictates (nothing is
+// remembered from the first evaluation).
+func H06_rerun() {
+	e := NewEngine()
+	tr := &tracer{}
+	tr.register(e)
+	srcs := []string{"lz(t(1, c), t(2, a), t(3, b))", "if(t(1, c), twice(t(2, a)), t(3, b))", "lz(c, a, b) + twice(a)", "t(1, c) && t(2, d)"}
+	k := sv.Choice("prog", len(srcs))
+	tys := map[string]*types.Type{"a": types.Num, "b": types.Num, "c": types.Bool, "d": types.Bool}
+	names := []string{"a", "b", "c", "d"}
+	expr, _, cls := e.Front(srcs[k], tys, names)
+	sv.Assert("accepted", cls == "ok")
+	bv := func(x bool) *val.Val {
+		if x {
+			return val.True
+		}
+		return val.False
+	}
+	{
+		bk := sv.Choice("backend", NBackends)
+		cl := Backend(bk)(expr, e.Rt)
+		for run := 0; run < 2; run++ {
+			c, d := sv.Bool("c"+itoa(run)), sv.Bool("d"+itoa(run))
+			// distinct data per run; the first run's operand symbolic
+			a, b := float64(10*run+1), float64(10*run+2)
+			if run == 0 {
+				a = sv.Float64("a0")
+			}
+			tr.log = nil
+			var res *val.Val
+			class := sv.Outcome(func() {
+				ve := val.NewEnv()
+				ve.Put("a", val.Num(a))
+				ve.Put("b", val.Num(b))
+				ve.Put("c", bv(c))
+				ve.Put("d", bv(d))
+				res = cl(ve.Inherit(e.Rt))
+			})
+			sv.Assert("evaluates:"+BackendNames[bk], class == "ok" && res != nil)
+			if class != "ok" || res == nil {
+				continue
+			}
+			var want []int
+			switch k {
+			case 0:
+				want = cat([]int{1}, when(c, 2), when(!c, 3))
+				sv.Assert("value-of-this-run:"+BackendNames[bk], sv.Same(res.Num().V, sv.IteF(c, a, b)))
+			case 1:
+				want = cat([]int{1}, when(c, 2, 2), when(!c, 3))
+				sv.Assert("value-of-this-run:"+BackendNames[bk], sv.Same(res.Num().V, sv.IteF(c, a+a, b)))
+			case 2:
+				sv.Assert("value-of-this-run:"+BackendNames[bk], sv.Same(res.Num().V, sv.IteF(c, a, b)+(a+a)))
+			default:
+				want = cat([]int{1}, when(c, 2))
+				sv.Assert("value-of-this-run:"+BackendNames[bk], res.Bool().V == sv.And(c, d))
+			}
+			same := len(tr.log) == len(want)
+			if same {
+				for i := range want {
+					same = same && tr.log[i] == want[i]
+				}
+			}
+			sv.Assert("sequence-of-this-run:"+BackendNames[bk], same)
+		}
+	}
+	sv.Reach("re-run")
 }
